@@ -1,6 +1,6 @@
 CONSTANTS
   NDocs = 24
-  NOperators = 41
+  NOperators = 42
   MaxSite = 5
 INIT Init
 NEXT Next
